@@ -4,6 +4,6 @@ CONSTANTS
   MaxLen = 3
   NSlots = 1
   Contexts = {"attr", "text"}
-INVARIANTS TypeOK RoundTrip NoInjection Fixpoint RawIsAnException
+INVARIANTS TypeOK RoundTrip NoInjection Fixpoint RawIsAnException ListContract
 VIEW View
 CHECK_DEADLOCK FALSE
